@@ -15,7 +15,7 @@ PROPS = ["C%02d" % i for i in range(1, 21)]
 
 def variants():
     out = []
-    for d in sorted(glob.glob(os.path.join(VERIF, "refactors", "[ARQTUWXYZ]*-*"))):
+    for d in sorted(glob.glob(os.path.join(VERIF, "refactors", "[ABRQTUWXYZ]*-*"))):
         m = json.load(open(os.path.join(d, "meta.json")))
         if m.get("exclude"):
             continue
